@@ -23,7 +23,9 @@ Definition compiled_eqb (x y : compiled) : bool :=
 Definition compile (st : S) (fee_in : N) : outcome (compiled * S) :=
   r <- build st fee_in ;;
   let '(len, pid, st') := r in
-  Ok (mk_compiled len pid (a * len + b + m) fee_in, st').
+  (* checked_eval_size_fees: a fee beyond 64 bits is a compile error *)
+  if a * len + b + m <? 2 ^ 64 then Ok (mk_compiled len pid (a * len + b + m) fee_in, st')
+  else Err "ConsistencyError".
 
 Definition fee_of (last : option compiled) : N :=
   match last with Some r => c_fee r | None => 0 end.
